@@ -12,7 +12,7 @@ import hashlib
 from ref import codecs, frames
 from sim import sched as S
 from sim.core import Counters, EventLog, HarnessError, RunResult, Violation, sub_rng
-from sim.netsim import Net, Peer, SimClock, SimHang
+from sim.netsim import Net, Peer, SimClock, SimHang, SimSocket
 from sim.p2penv import P2PEnv, p2p_module
 
 PROPERTY = "C17"
@@ -636,13 +636,26 @@ def execute(scenario, tape=None, keep_events=False):
         if rc:
             import gc
 
+            # CPython hands the address (id) of a dead socket object to a later one sooner or
+            # later.  The simulator provokes that on purpose: the dead object is released and
+            # fresh socket objects are allocated right away until one lands on the same address
+            # (it usually is the first).  The new connection always gets a NEW object - code that
+            # keys state on the socket object itself (e.g. a WeakKeyDictionary) is unaffected.
+            want_recycle = bool(rc.get("recycle_identity"))
+            dead_id = id(sock)
             net.sockets.remove(sock)
             peer.sock = None
-            # CPython hands the address (id) of a dead socket object to a later one sooner or
-            # later; the simulator makes that deterministic by recycling the very same object
-            # for the next connection (seeded), instead of leaving it to the allocator
-            dead = sock if rc.get("recycle_identity") else None
             sock = None
+            recycled = None
+            if want_recycle:
+                spare = []
+                for _ in range(64):
+                    cand = SimSocket(net)
+                    if id(cand) == dead_id:
+                        recycled = cand
+                        break
+                    spare.append(cand)
+                spare = None
             gc.collect()
             for ci, fd in enumerate(rc["frames"]):
                 pl = _payload_bytes(fd["payload_seed"], fd["size"])
@@ -652,11 +665,11 @@ def execute(scenario, tape=None, keep_events=False):
                 npeer = Peer(200 + ci, "10.0.8.1", 19500 + ci, rsegs, close_after=True)
                 net.peers[(npeer.host, npeer.port)] = npeer
                 net.by_port[npeer.port] = npeer
-                if dead is not None and ci == 0:
-                    dead.__init__(net)
-                    dead.local_port = 50000 + len(net.sockets)
-                    net.sockets.append(dead)
-                    ns = dead
+                if recycled is not None and ci == 0:
+                    recycled.local_port = 50000 + len(net.sockets)
+                    net.sockets.append(recycled)
+                    ns = recycled
+                    recycled = None
                     faults.hit("socket-identity-recycled")
                 else:
                     ns = net.new_socket()
